@@ -77,43 +77,55 @@ theorem pairOK_left (S : Matrix) (o : Int) (r q : List Nat) (i j mj : Nat) (hj :
 structure Faith (S : Matrix) (o : Int) (r q : List Nat) (st : TB) : Prop where
   done : st.aln.all (pairOK S o r q) = true
   segm : st.last = .m → st.score = blockSum S r q st.i st.j (st.maxI - st.i)
+  -- a gap run still in its own layer has not been charged `gapOpen` yet; once it has left
+  -- its layer (for the match layer or, since the repair of K1, the other gap layer) it has
   segu : st.last = .u → (st.layer = .u → st.score = upSum S r st.i (st.maxI - st.i)) ∧
-    (st.layer = .m → st.score = o + upSum S r st.i (st.maxI - st.i)) ∧ st.layer ≠ .l
+    (st.layer ≠ .u → st.score = o + upSum S r st.i (st.maxI - st.i))
   segl : st.last = .l → (st.layer = .l → st.score = leftSum S q st.j (st.maxJ - st.j)) ∧
-    (st.layer = .m → st.score = o + leftSum S q st.j (st.maxJ - st.j)) ∧ st.layer ≠ .u
+    (st.layer ≠ .l → st.score = o + leftSum S q st.j (st.maxJ - st.j))
   termi : st.i = 0 → st.last ≠ .l
   termj : st.j = 0 → st.last ≠ .u
 
-theorem cands_cases {sw : Bool} {S : Matrix} {o : Int} {x y : Nat} {mv pl : Kind} {add : Int}
-    (h : (mv, pl, add) ∈ cands sw S o x y) :
-    (mv = .u ∧ ((pl = .u ∧ add = S x 0) ∨ (pl = .m ∧ add = o + S x 0))) ∨
-    (mv = .l ∧ ((pl = .l ∧ add = S 0 y) ∨ (pl = .m ∧ add = o + S 0 y))) ∨
+theorem cands_cases {cross sw : Bool} {S : Matrix} {o : Int} {x y : Nat} {mv pl : Kind} {add : Int}
+    (h : (mv, pl, add) ∈ cands cross sw S o x y) :
+    (mv = .u ∧ ((pl = .u ∧ add = S x 0) ∨ (pl ≠ .u ∧ add = o + S x 0))) ∨
+    (mv = .l ∧ ((pl = .l ∧ add = S 0 y) ∨ (pl ≠ .l ∧ add = o + S 0 y))) ∨
     (mv = .m ∧ add = S x y) := by
-  cases sw <;> simp [cands] at h <;>
-    rcases h with ⟨rfl, rfl, rfl⟩ | ⟨rfl, rfl, rfl⟩ | ⟨rfl, rfl, rfl⟩ | ⟨rfl, rfl, rfl⟩ | ⟨rfl, rfl, rfl⟩ |
+  cases cross <;> cases sw <;> simp [cands] at h
+  · rcases h with ⟨rfl, rfl, rfl⟩ | ⟨rfl, rfl, rfl⟩ | ⟨rfl, rfl, rfl⟩ | ⟨rfl, rfl, rfl⟩ | ⟨rfl, rfl, rfl⟩ |
       ⟨rfl, rfl, rfl⟩ | ⟨rfl, rfl, rfl⟩ <;> simp
+  · rcases h with ⟨rfl, rfl, rfl⟩ | ⟨rfl, rfl, rfl⟩ | ⟨rfl, rfl, rfl⟩ | ⟨rfl, rfl, rfl⟩ | ⟨rfl, rfl, rfl⟩ |
+      ⟨rfl, rfl, rfl⟩ | ⟨rfl, rfl, rfl⟩ <;> simp
+  · rcases h with ⟨rfl, rfl, rfl⟩ | ⟨rfl, rfl, rfl⟩ | ⟨rfl, rfl, rfl⟩ | ⟨rfl, rfl, rfl⟩ | ⟨rfl, rfl, rfl⟩ |
+      ⟨rfl, rfl, rfl⟩ | ⟨rfl, rfl, rfl⟩ | ⟨rfl, rfl, rfl⟩ | ⟨rfl, rfl, rfl⟩ <;> simp
+  · rcases h with ⟨rfl, rfl, rfl⟩ | ⟨rfl, rfl, rfl⟩ | ⟨rfl, rfl, rfl⟩ | ⟨rfl, rfl, rfl⟩ | ⟨rfl, rfl, rfl⟩ |
+      ⟨rfl, rfl, rfl⟩ | ⟨rfl, rfl, rfl⟩ | ⟨rfl, rfl, rfl⟩ | ⟨rfl, rfl, rfl⟩ <;> simp
 
 /-- an `up` step that belongs to the current layer keeps the score invariant -/
 theorem move_faith_u {S : Matrix} {o : Int} {r q : List Nat} {R C I0 J0 : Nat} {st : TB}
     (hinv : Inv R C I0 J0 st) (hf : Faith S o r q st) (hi0 : 0 < st.i) (hj0 : 0 < st.j)
     (hR : st.i ≤ R) (hC : st.j ≤ C) (pl : Kind) (v pv : Int) (hlayer : st.layer = .u)
     (hpl : (pl = .u ∧ v - pv = S (r.getD (st.i - 1) 0) 0) ∨
-           (pl = .m ∧ v - pv = o + S (r.getD (st.i - 1) 0) 0)) :
+           (pl ≠ .u ∧ v - pv = o + S (r.getD (st.i - 1) 0) 0)) :
     Faith S o r q (st.move (decide (st.i = R ∧ st.j = C)) .u pl v pv) := by
   obtain ⟨hi, hj, hmR, hmC, isegm, isegu, isegl, iempty0, _, _, _, _⟩ := hinv
   obtain ⟨done, segm, segu, segl, termi, termj⟩ := hf
   have hsucc : st.i - 1 + 1 = st.i := by omega
-  have hnl : st.last ≠ .l := by
-    intro h; exact (segl h).2.2 hlayer
   by_cases hc : st.last ≠ .u ∧ ((Kind.u : Kind) = .m ∨ ¬ decide (st.i = R ∧ st.j = C) = true)
   · rw [move_emit st _ .u pl v pv hc]
-    have hlm : st.last = .m := by
-      cases h : st.last with
-      | m => rfl
-      | u => exact absurd h hc.1
-      | l => exact absurd h hnl
     have hpair : pairOK S o r q ⟨st.i, st.maxI, st.j, st.maxJ, st.score⟩ = true := by
-      rw [segm hlm]; exact pairOK_block S o r q _ _ _ _ hi (isegm hlm)
+      cases h : st.last with
+      | m => rw [segm h]; exact pairOK_block S o r q _ _ _ _ hi (isegm h)
+      | u => exact absurd h hc.1
+      | l =>
+        -- the run of query letters against gaps just closed by its opening step from `up`
+        obtain ⟨e1, e2⟩ := isegl h
+        have e2' : st.j < st.maxJ := by
+          rcases e2 with e2 | e2
+          · exact e2
+          · rw [hlayer] at e2; cases e2
+        rw [(segl h).2 (by rw [hlayer]; decide), ← e1]
+        exact pairOK_left S o r q _ _ _ e2'
     refine ⟨by simp only [List.all_cons, hpair, done, Bool.and_self], (fun h => by cases h), ?_,
       (fun h => by cases h), (fun _ h => by cases h), (fun h => by simp at h; omega)⟩
     intro _
@@ -121,9 +133,9 @@ theorem move_faith_u {S : Matrix} {o : Int} {r q : List Nat} {R C I0 J0 : Nat} {
     have h1 : st.i - (st.i - 1) = 1 := by omega
     rw [h1, upSum_succ, hsucc]
     simp only [upSum, sumRange_zero]
-    rcases hpl with ⟨rfl, e⟩ | ⟨rfl, e⟩
-    · exact ⟨(fun _ => by omega), (fun h => by cases h), (by decide)⟩
-    · exact ⟨(fun h => by cases h), (fun _ => by omega), (by decide)⟩
+    rcases hpl with ⟨rfl, e⟩ | ⟨hne, e⟩
+    · exact ⟨(fun _ => by omega), (fun h => absurd rfl h)⟩
+    · exact ⟨(fun h => absurd h hne), (fun _ => by omega)⟩
   · rw [move_keep st _ .u pl v pv hc]
     have hscore : st.score = upSum S r st.i (st.maxI - st.i) := by
       by_cases hl : st.last = .u
@@ -146,31 +158,34 @@ theorem move_faith_u {S : Matrix} {o : Int} {r q : List Nat} {R C I0 J0 : Nat} {
     simp only [if_neg (show ¬ (Kind.u = Kind.l) by decide)]
     have h1 : st.maxI - (st.i - 1) = (st.maxI - st.i) + 1 := by omega
     rw [h1, upSum_succ, hsucc, hscore]
-    rcases hpl with ⟨rfl, e⟩ | ⟨rfl, e⟩
-    · exact ⟨(fun _ => by omega), (fun h => by cases h), (by decide)⟩
-    · exact ⟨(fun h => by cases h), (fun _ => by omega), (by decide)⟩
+    rcases hpl with ⟨rfl, e⟩ | ⟨hne, e⟩
+    · exact ⟨(fun _ => by omega), (fun h => absurd rfl h)⟩
+    · exact ⟨(fun h => absurd h hne), (fun _ => by omega)⟩
 
 /-- a `left` step that belongs to the current layer keeps the score invariant -/
 theorem move_faith_l {S : Matrix} {o : Int} {r q : List Nat} {R C I0 J0 : Nat} {st : TB}
     (hinv : Inv R C I0 J0 st) (hf : Faith S o r q st) (hi0 : 0 < st.i) (hj0 : 0 < st.j)
     (hR : st.i ≤ R) (hC : st.j ≤ C) (pl : Kind) (v pv : Int) (hlayer : st.layer = .l)
     (hpl : (pl = .l ∧ v - pv = S 0 (q.getD (st.j - 1) 0)) ∨
-           (pl = .m ∧ v - pv = o + S 0 (q.getD (st.j - 1) 0))) :
+           (pl ≠ .l ∧ v - pv = o + S 0 (q.getD (st.j - 1) 0))) :
     Faith S o r q (st.move (decide (st.i = R ∧ st.j = C)) .l pl v pv) := by
   obtain ⟨hi, hj, hmR, hmC, isegm, isegu, isegl, iempty0, _, _, _, _⟩ := hinv
   obtain ⟨done, segm, segu, segl, termi, termj⟩ := hf
   have hsucc : st.j - 1 + 1 = st.j := by omega
-  have hnu : st.last ≠ .u := by
-    intro h; exact (segu h).2.2 hlayer
   by_cases hc : st.last ≠ .l ∧ ((Kind.l : Kind) = .m ∨ ¬ decide (st.i = R ∧ st.j = C) = true)
   · rw [move_emit st _ .l pl v pv hc]
-    have hlm : st.last = .m := by
-      cases h : st.last with
-      | m => rfl
-      | l => exact absurd h hc.1
-      | u => exact absurd h hnu
     have hpair : pairOK S o r q ⟨st.i, st.maxI, st.j, st.maxJ, st.score⟩ = true := by
-      rw [segm hlm]; exact pairOK_block S o r q _ _ _ _ hi (isegm hlm)
+      cases h : st.last with
+      | m => rw [segm h]; exact pairOK_block S o r q _ _ _ _ hi (isegm h)
+      | l => exact absurd h hc.1
+      | u =>
+        obtain ⟨e1, e2⟩ := isegu h
+        have e2' : st.i < st.maxI := by
+          rcases e2 with e2 | e2
+          · exact e2
+          · rw [hlayer] at e2; cases e2
+        rw [(segu h).2 (by rw [hlayer]; decide), ← e1]
+        exact pairOK_up S o r q _ _ _ e2'
     refine ⟨by simp only [List.all_cons, hpair, done, Bool.and_self], (fun h => by cases h),
       (fun h => by cases h), ?_, (fun h => by simp at h; omega), (fun _ h => by cases h)⟩
     intro _
@@ -178,9 +193,9 @@ theorem move_faith_l {S : Matrix} {o : Int} {r q : List Nat} {R C I0 J0 : Nat} {
     have h1 : st.j - (st.j - 1) = 1 := by omega
     rw [h1, leftSum_succ, hsucc]
     simp only [leftSum, sumRange_zero]
-    rcases hpl with ⟨rfl, e⟩ | ⟨rfl, e⟩
-    · exact ⟨(fun _ => by omega), (fun h => by cases h), (by decide)⟩
-    · exact ⟨(fun h => by cases h), (fun _ => by omega), (by decide)⟩
+    rcases hpl with ⟨rfl, e⟩ | ⟨hne, e⟩
+    · exact ⟨(fun _ => by omega), (fun h => absurd rfl h)⟩
+    · exact ⟨(fun h => absurd h hne), (fun _ => by omega)⟩
   · rw [move_keep st _ .l pl v pv hc]
     have hscore : st.score = leftSum S q st.j (st.maxJ - st.j) := by
       by_cases hl : st.last = .l
@@ -202,9 +217,9 @@ theorem move_faith_l {S : Matrix} {o : Int} {r q : List Nat} {R C I0 J0 : Nat} {
     simp only [if_neg (show ¬ (Kind.l = Kind.u) by decide)]
     have h1 : st.maxJ - (st.j - 1) = (st.maxJ - st.j) + 1 := by omega
     rw [h1, leftSum_succ, hsucc, hscore]
-    rcases hpl with ⟨rfl, e⟩ | ⟨rfl, e⟩
-    · exact ⟨(fun _ => by omega), (fun h => by cases h), (by decide)⟩
-    · exact ⟨(fun h => by cases h), (fun _ => by omega), (by decide)⟩
+    rcases hpl with ⟨rfl, e⟩ | ⟨hne, e⟩
+    · exact ⟨(fun _ => by omega), (fun h => absurd rfl h)⟩
+    · exact ⟨(fun h => absurd h hne), (fun _ => by omega)⟩
 
 /-- a diagonal step that belongs to the current layer keeps the score invariant -/
 theorem move_faith_m {S : Matrix} {o : Int} {r q : List Nat} {R C I0 J0 : Nat} {st : TB}
@@ -223,12 +238,20 @@ theorem move_faith_m {S : Matrix} {o : Int} {r q : List Nat} {R C I0 J0 : Nat} {
       | m => exact absurd hl hc.1
       | u =>
         obtain ⟨e1, e2⟩ := isegu hl
-        rw [(segu hl).2.1 hlayer, ← e1]
-        exact pairOK_up S o r q _ _ _ e2
+        have e2' : st.i < st.maxI := by
+          rcases e2 with e2 | e2
+          · exact e2
+          · rw [hlayer] at e2; cases e2
+        rw [(segu hl).2 (by rw [hlayer]; decide), ← e1]
+        exact pairOK_up S o r q _ _ _ e2'
       | l =>
         obtain ⟨e1, e2⟩ := isegl hl
-        rw [(segl hl).2.1 hlayer, ← e1]
-        exact pairOK_left S o r q _ _ _ e2
+        have e2' : st.j < st.maxJ := by
+          rcases e2 with e2 | e2
+          · exact e2
+          · rw [hlayer] at e2; cases e2
+        rw [(segl hl).2 (by rw [hlayer]; decide), ← e1]
+        exact pairOK_left S o r q _ _ _ e2'
     refine ⟨by simp only [List.all_cons, hpair, done, Bool.and_self], ?_, (fun h => by cases h),
       (fun h => by cases h), (fun _ h => by cases h), (fun _ h => by cases h)⟩
     intro _
@@ -258,9 +281,9 @@ theorem move_tie (st : TB) (e : Bool) (mv pl : Kind) (v pv : Int) :
   · rw [move_keep st e mv pl v pv h]
 
 /-- as long as no step leaves its layer, the score invariant holds along the loop -/
-theorem loop_faith (aware sw : Bool) (T : Table) (S : Matrix) (o : Int) (r q : List Nat) (R C I0 J0 : Nat) :
+theorem loop_faith (aware cross sw : Bool) (T : Table) (S : Matrix) (o : Int) (r q : List Nat) (R C I0 J0 : Nat) :
     ∀ (fuel : Nat) (st st' : TB), Inv R C I0 J0 st → (st.tie = false → Faith S o r q st) →
-      tbLoop aware sw T S o r q R C fuel st = .ok st' → (st'.tie = false → Faith S o r q st') := by
+      tbLoop aware cross sw T S o r q R C fuel st = .ok st' → (st'.tie = false → Faith S o r q st') := by
   intro fuel
   induction fuel with
   | zero => intro st st' _ hf hl; simp only [tbLoop] at hl; cases hl; exact hf
@@ -279,7 +302,7 @@ theorem loop_faith (aware sw : Bool) (T : Table) (S : Matrix) (o : Int) (r q : L
       by_cases hsw : (sw = true ∧ v = 0)
       · rw [if_pos hsw] at hl; cases hl; exact hf
       rw [if_neg hsw] at hl
-      cases hfind : (cands sw S o (r.getD (st.i - 1) 0) (q.getD (st.j - 1) 0)).find?
+      cases hfind : (cands cross sw S o (r.getD (st.i - 1) 0) (q.getD (st.j - 1) 0)).find?
           (caseHit aware T st v) with
       | none => rw [hfind] at hl; cases hl
       | some cd =>
@@ -313,18 +336,18 @@ theorem loop_faith (aware sw : Bool) (T : Table) (S : Matrix) (o : Int) (r q : L
         have hf0 := hf ht0
         rcases cands_cases hmem with ⟨rfl, hpl⟩ | ⟨rfl, hpl⟩ | ⟨rfl, hs⟩
         · apply move_faith_u hinv hf0 (by omega) (by omega) hiR hjC pl v _ hlay
-          rcases hpl with ⟨rfl, e⟩ | ⟨rfl, e⟩
+          rcases hpl with ⟨rfl, e⟩ | ⟨hne, e⟩
           · exact Or.inl ⟨rfl, by rw [hadd, e]⟩
-          · exact Or.inr ⟨rfl, by rw [hadd, e]⟩
+          · exact Or.inr ⟨hne, by rw [hadd, e]⟩
         · apply move_faith_l hinv hf0 (by omega) (by omega) hiR hjC pl v _ hlay
-          rcases hpl with ⟨rfl, e⟩ | ⟨rfl, e⟩
+          rcases hpl with ⟨rfl, e⟩ | ⟨hne, e⟩
           · exact Or.inl ⟨rfl, by rw [hadd, e]⟩
-          · exact Or.inr ⟨rfl, by rw [hadd, e]⟩
+          · exact Or.inr ⟨hne, by rw [hadd, e]⟩
         · exact move_faith_m hinv hf0 (by omega) (by omega) pl v _ hlay (by rw [hadd, hs])
 
 /-- the layer-aware switch only takes `case`s of the current layer: the ghost flag never changes -/
-theorem loop_tie_aware (sw : Bool) (T : Table) (S : Matrix) (o : Int) (r q : List Nat) (R C : Nat) :
-    ∀ (fuel : Nat) (st st' : TB), tbLoop true sw T S o r q R C fuel st = .ok st' → st'.tie = st.tie := by
+theorem loop_tie_aware (cross sw : Bool) (T : Table) (S : Matrix) (o : Int) (r q : List Nat) (R C : Nat) :
+    ∀ (fuel : Nat) (st st' : TB), tbLoop true cross sw T S o r q R C fuel st = .ok st' → st'.tie = st.tie := by
   intro fuel
   induction fuel with
   | zero => intro st st' hl; simp only [tbLoop] at hl; cases hl; rfl
@@ -343,7 +366,7 @@ theorem loop_tie_aware (sw : Bool) (T : Table) (S : Matrix) (o : Int) (r q : Lis
       by_cases hsw : (sw = true ∧ v = 0)
       · rw [if_pos hsw] at hl; cases hl; rfl
       rw [if_neg hsw] at hl
-      cases hfind : (cands sw S o (r.getD (st.i - 1) 0) (q.getD (st.j - 1) 0)).find?
+      cases hfind : (cands cross sw S o (r.getD (st.i - 1) 0) (q.getD (st.j - 1) 0)).find?
           (caseHit true T st v) with
       | none => rw [hfind] at hl; cases hl
       | some cd =>
@@ -355,11 +378,11 @@ theorem loop_tie_aware (sw : Bool) (T : Table) (S : Matrix) (o : Int) (r q : Lis
         simp [hlay]
 
 /-- **the score invariant holds along the layer-aware loop**, unconditionally -/
-theorem loop_faith_aware (sw : Bool) (T : Table) (S : Matrix) (o : Int) (r q : List Nat) (R C I0 J0 : Nat)
+theorem loop_faith_aware (cross sw : Bool) (T : Table) (S : Matrix) (o : Int) (r q : List Nat) (R C I0 J0 : Nat)
     (fuel : Nat) (st st' : TB) (hinv : Inv R C I0 J0 st) (ht : st.tie = false) (hf : Faith S o r q st)
-    (hl : tbLoop true sw T S o r q R C fuel st = .ok st') : Faith S o r q st' :=
-  loop_faith true sw T S o r q R C I0 J0 fuel st st' hinv (fun _ => hf) hl
-    (by rw [loop_tie_aware sw T S o r q R C fuel st st' hl]; exact ht)
+    (hl : tbLoop true cross sw T S o r q R C fuel st = .ok st') : Faith S o r q st' :=
+  loop_faith true cross sw T S o r q R C I0 J0 fuel st st' hinv (fun _ => hf) hl
+    (by rw [loop_tie_aware cross sw T S o r q R C fuel st st' hl]; exact ht)
 
 /-- the initial state -/
 theorem init_faith (S : Matrix) (o : Int) (r q : List Nat) (I0 J0 : Nat) (layer : Kind) (hI : 0 < I0)
@@ -369,6 +392,18 @@ theorem init_faith (S : Matrix) (o : Int) (r q : List Nat) (I0 J0 : Nat) (layer 
   segm := fun _ => by simp [blockSum, sumRange_zero]
   segu := fun h => by cases h
   segl := fun h => by cases h
+  termi := fun h => by simp only [] at h; omega
+  termj := fun h => by simp only [] at h; omega
+
+/-- the initial state of a traceback that starts in the run of its start layer (`last = layer`,
+    FittedAffine): an empty run that has not been charged anything -/
+theorem init_faith_layer (S : Matrix) (o : Int) (r q : List Nat) (I0 J0 : Nat) (layer : Kind) (hI : 0 < I0)
+    (hJ : 0 < J0) :
+    Faith S o r q { i := I0, j := J0, layer, last := layer, score := 0, maxI := I0, maxJ := J0, aln := [] } where
+  done := rfl
+  segm := fun _ => by simp [blockSum, sumRange_zero]
+  segu := fun h => ⟨fun _ => by simp [upSum, sumRange_zero], fun hne => absurd h hne⟩
+  segl := fun h => ⟨fun _ => by simp [leftSum, sumRange_zero], fun hne => absurd h hne⟩
   termi := fun h => by simp only [] at h; omega
   termj := fun h => by simp only [] at h; omega
 
